@@ -1,0 +1,20 @@
+//go:build verif
+
+package onoffpb
+
+// Machine-checked contracts for this package (comment-only; excluded from normal builds).
+
+//@ property C14
+//@ // ---- the model layer forwards the resource's change stream to a typed channel: one typed change per received change,
+//@ // in order, carrying that change's value and time untouched; the output closes when the input does ----
+//@ func (*Model).PullOnOff$1()
+//@   option only step post inv
+//@   requires send != nil && !chanClosed(send) && chanSent(send) == 0 && chanRecvd(recv) == 0
+//@   onrecv *resource.ValueChange: recvd != nil && istype(recvd.Value, *traits.OnOff)
+//@   onsend send [as-is]: sent.Value == cast(change.Value, *traits.OnOff) && sent.ChangeTime == change.ChangeTime
+//@   onsend send [in-step]: chanSent(send) == chanRecvd(recv) - 1     // nothing was skipped, nothing sent twice
+//@   ensures [closed] chanClosed(send)
+//@   ensures [all-forwarded] chanSent(send) == chanRecvd(recv)
+//@   modifies nothing
+//@   loop 0:
+//@     invariant !chanClosed(send) && chanSent(send) == chanRecvd(recv)
